@@ -268,6 +268,10 @@ func (handler *HeadersHandler) Handle(ctx context.Context, m wire.Message) ([]wi
 		// Ignore unknown blocks as they might happen when there is a reorg.
 		logger.Verbose(ctx, "Unknown header : %s", hash)
 		logger.Verbose(ctx, "Previous hash : %s", header.PrevBlock)
+		// The announcement doesn't connect to anything known, which also happens when its parent
+		// is the block currently being processed. Fall back to polling so the chain is requested
+		// again by locator instead of waiting for an announcement that will never connect.
+		handler.state.ClearInSync()
 		return nil, nil //errors.New(fmt.Sprintf("Unknown header : %s", hash))
 	}
 
